@@ -56,13 +56,14 @@ class Joint:
         from pyjelly.parse.decode import Decoder, ParserOptions  # noqa: PLC0415
 
         self.cls = cls
-        opts = DR.make_options(cls, preset, frame_size, True)
+        opts = DR.make_options(cls, preset, frame_size, True, ns=True)
         self.stream = DR.g_stream(cls, opts)
         self.stream.enroll()
         popts = ParserOptions(
             stream_types=StreamTypes(physical_type=DR.PT[cls], logical_type=DR.FLAT_LT[cls]),
             lookup_preset=LookupPreset(*preset),
-            params=StreamParameters(generalized_statements=True, rdf_star=True),
+            params=StreamParameters(generalized_statements=True, rdf_star=True,
+                                    namespace_declarations=True),
         )
         adapter = {"triple": gp.GenericTriplesAdapter, "quad": gp.GenericQuadsAdapter,
                    "graph": gp.GenericGraphsAdapter}[cls](popts)
@@ -74,10 +75,10 @@ class Joint:
         fails: list[str] = []
         gg = T.to_generic(gname)
         for t in triples:
-            self.pending.append(T.norm_st((*t, gname)))
+            self.pending.append(("st", T.norm_st((*t, gname))))
         for frame in self.stream.graph(gg, [T.st_to_generic(t) for t in triples]):
             # statements decoded so far must be a prefix of what was sent
-            got = [T.norm_st(T.st_from_generic(x)) for x in self.dec.iter_rows(frame)]
+            got = [T.ev_from_generic(x) for x in self.dec.iter_rows(frame)]
             if got != self.pending[: len(got)]:
                 return [f"frame decodes to {got}, statements sent were {self.pending}"]
             self.pending = self.pending[len(got):]
@@ -86,10 +87,17 @@ class Joint:
     def send(self, st) -> list[str]:
         if st and st[0] == "graph":
             return self.send_graph(st[1], st[2])
+        if st and st[0] == "opt":
+            self.stream.stream_options()  # the identical options row, sent again
+            return []
+        if st and st[0] == "ns":
+            self.stream.namespace_declaration(st[1], st[2])
+            self.pending.append(("ns", st[1], ("I", st[2])))
+            return []
         fails: list[str] = []
         g = T.st_to_generic(st)
         frame = self.stream.triple(g) if self.cls == "triple" else self.stream.quad(g)
-        self.pending.append(T.norm_st(st))
+        self.pending.append(("st", T.norm_st(st)))
         if frame is not None:
             fails += self.deliver(frame)
         return fails
@@ -99,7 +107,7 @@ class Joint:
         return self.deliver(frame) if frame is not None else []
 
     def deliver(self, frame) -> list[str]:
-        got = [T.norm_st(T.st_from_generic(x)) for x in self.dec.iter_rows(frame)]
+        got = [T.ev_from_generic(x) for x in self.dec.iter_rows(frame)]
         exp, self.pending = self.pending, []
         if got != exp:
             return [f"frame decodes to {got}, statements sent were {exp}"]
@@ -152,6 +160,8 @@ def _to_list(x):
 
 def bfs_shard(job) -> dict:
     _, name, cap = job
+    extra = name.endswith("+calls")
+    name = name.split("+")[0]
     scope, cls, preset, fs, idxs = BFS_SCOPES[name]
     alpha = AL.alphabet(scope, 3 if cls == "triple" else 4)
     if cls == "graph":
@@ -163,6 +173,12 @@ def bfs_shard(job) -> dict:
 
         raise HarnessError(f"BFS scope {name} has only {len(evs)} in-domain statements")
     evs.append("flush")
+    if extra:
+        evs = evs[:3] + ["flush"]
+        evs.append(("opt",))
+        evs.append(("ns", "p", "http://a/x"))  # an IRI the statements use as a whole
+        evs.append(("ns", "", "urn:n"))        # no separator: empty prefix
+        name += "+calls"
     acc = pool.Acc()
     res = B.bfs(
         init=lambda: Joint(cls, preset, fs),
@@ -196,6 +212,8 @@ def run(ctx) -> None:
         cap = 120000
     expected = RT.expected_cases(jobs)
     bjobs = [("bfs", name, cap) for name in BFS_SCOPES]
+    # the same joint search with the other public calls of a stream as additional events
+    bjobs += [("bfs", name + "+calls", min(cap, 20000)) for name in ("prefix3", "repeat", "graphs")]
     merged = pool.merge(pool.pmap(shard, bjobs + jobs))
     ctx.add(merged)
     searches = [e for e in merged["extras"] if "bfs" in e]
@@ -225,7 +243,8 @@ def run(ctx) -> None:
             "point; count asserted against the closed form; out-of-domain points (a statement "
             "needing more entries than an enabled table holds) are skipped and counted; "
             "non-trivial = sequence with an elision opportunity or a forced eviction. BFS: joint "
-            "real Stream+Decoder state, events = statements of a sub-alphabet + flush."
+            "real Stream+Decoder state, events = statements of a sub-alphabet + flush + the "
+            "options row sent again + two namespace declarations."
         ),
     )
     ctx.assumptions += ["terms outside the alphabets behave like the ones inside (DESIGN 11)"]
@@ -233,7 +252,7 @@ def run(ctx) -> None:
 
 def replay(case: dict) -> list:
     if "bfs" in case:
-        scope, cls, preset, fs, idxs = BFS_SCOPES[case["bfs"]]
+        scope, cls, preset, fs, idxs = BFS_SCOPES[case["bfs"].split("+")[0]]
         st = Joint(cls, preset, fs)
         out: list = []
         for ev in case["path"]:
